@@ -118,6 +118,12 @@ Proof.
   - destruct (s_buffered st); mi.
 Qed.
 
+Lemma mi_concat id cs : Forall (fun c => forallb (mark_is id) c = true) cs -> forallb (mark_is id) (concat cs) = true.
+Proof. induction 1 as [|c cs Hc _ IH]; simpl; [reflexivity|]. rewrite mi_app, Hc, IH. reflexivity. Qed.
+
+Lemma mi_muts id (l : list nat) (f : stage -> stage) : Forall (fun c => forallb (mark_is id) c = true) (map (fun j => c_mutate j f) l).
+Proof. induction l; simpl; constructor; auto. Qed.
+
 Lemma mi_jump s id i tg c : MARKS id (handle_jump s id i tg c).
 Proof.
   unfold MARKS, handle_jump. destruct (get_stage s i) as [src|]; [|mi].
@@ -125,12 +131,17 @@ Proof.
   destruct (get_stage s tg) as [tgt|]; [|unfold ok; cbn [h_commits]; mi].
   destruct (jump_exhausted _ _); [unfold ok; cbn [h_commits]; mi|].
   unfold ok; cbn [h_commits]. constructor; [|constructor].
-  unfold txn. rewrite !concat_app, !mi_app.
-  assert (forall (l : list nat) f, forallb (mark_is id) (concat (map (fun j => c_mutate j f) l)) = true) as Hm
-    by (intros l f; induction l; simpl; auto).
-  rewrite !Hm. simpl. rewrite Nat.eqb_refl.
-  match goal with |- context [if ?a then [] else _] => destruct a end; [reflexivity|].
-  match goal with |- context [if ?a then _ else _] => destruct a end; reflexivity.
+  unfold txn. apply mi_concat. repeat (apply Forall_app; split).
+  - match goal with |- Forall _ (flat_map _ ?l) => generalize l end. intros l0.
+    induction l0 as [|j l0 IH]; simpl; [constructor|].
+    constructor; [reflexivity|]. apply Forall_app. split; [apply mi_muts|exact IH].
+  - apply mi_muts.
+  - match goal with |- context [if ?a then [] else _] => destruct a end; [constructor|].
+    match goal with |- context [if ?a then _ else _] => destruct a end.
+    + constructor; [reflexivity|apply mi_muts].
+    + constructor; [reflexivity|constructor].
+  - constructor; [reflexivity|]. apply Forall_app. split; [apply mi_muts|].
+    constructor; [simpl; rewrite Nat.eqb_refl; reflexivity|]. repeat constructor.
 Qed.
 
 Theorem marks_handle orc s r : MARKS (q_id r) (handle orc s r).
